@@ -261,6 +261,8 @@ pub fn check_cli(c: &CliCase) -> Result<bool, Violation> {
             let p = scratch.file("formula.txt", &c.formula);
             args.push(p.to_string_lossy().into_owned());
         }
+        "missing-file" => args.push(scratch.path("no/such/formula.txt").to_string_lossy().into_owned()),
+        "directory" => args.push(scratch.dir.to_string_lossy().into_owned()),
         _ => stdin = Some(&c.formula),
     }
     if let Some(o) = &c.ordering {
@@ -502,7 +504,10 @@ fn gen_ordering(t: &mut Tape) -> Option<Ordering> {
     Some(out)
 }
 
-const OPTS: [&[&str]; 22] = [
+const OPTS: [&[&str]; 25] = [
+    &["-o", "{MISSING}"],
+    &["-o", "{DIR}"],
+    &["--ordering={MISSING}"],
     &["-t"],
     &["-v"],
     &["-m"],
@@ -531,7 +536,7 @@ pub fn run(ctx: &mut Ctx) -> Result<(), Violation> {
     ctx.rule = "cases = byte strings given as formula (and as ordering): random bytes incl. invalid UTF-8 and NUL, strings over the language's characters, token soups over every spelling/alias/decoy, generated valid formulas under token mutations and number substitutions (extreme, 30-digit, non-ASCII, signed, fractional digits next to every counting operator), \
                 unbalanced brackets/quotes, empty input, depth-200 chains of parentheses / negations / operators / binders / lists, 64 KiB inputs; in-process orderings = arbitrary NamedSymbol vectors (distinct names and ids < 24, incl. keyword-like and empty names). \
                 In-process (catch_unwind, 512 MiB stacks): tokenize, ParsedFormula::new, parse-tree DOT, and - only inside the property's domain (depth <= 200, fixed points syntactically monotone or observed convergent under the fp iteration-limit hook; <= 12 names and lists <= 12 as a pure cost bound) - eval, BDD DOT for the three filters, model, retain, and every id->column lookup the CLI would make. \
-                CLI: the rsbdd binary built from the working tree with the bytes via --evaluate / file / stdin and as -o file, under random option sets (-t -v -m -r -d -p -f -c -b, missing paths, directories, invalid values); violation <=> exit status 101, death by signal, or `panicked at` on stderr. A time-out is never a violation. \
+                CLI: the rsbdd binary built from the working tree with the bytes via --evaluate / file / stdin and as -o file, under random option sets (-t -v -m -r -d -p -f -c -b -o, missing and directory paths for the formula, the ordering and the output files, invalid values); violation <=> exit status 101, death by signal, or `panicked at` on stderr. A time-out is never a violation. \
                 Non-trivial = input that tokenises to >= 3 tokens; distinct by bytes."
         .to_string();
     ctx.assume("-g is excluded (it spawns gnuplot)");
@@ -578,7 +583,7 @@ pub fn run(ctx: &mut Ctx) -> Result<(), Violation> {
     });
     ctx.stage("repository-files-in-process", true, r)?;
 
-    let cases = ctx.tier.pick(150_000, 5_000_000);
+    let cases = ctx.tier.pick(500_000, 10_000_000);
     let r = par_random(ctx, "random-in-process", cases, 220, |tape, st| {
         let mut t = Tape::new(tape);
         let (kind, bytes) = gen_bytes(&mut t, st);
@@ -596,7 +601,7 @@ pub fn run(ctx: &mut Ctx) -> Result<(), Violation> {
     let mut jobs: Vec<CliCase> = Vec::new();
     let mut rng = util::Rng::new(ctx.seed ^ 0xC12);
     let corpus: Vec<Vec<u8>> = inputs.iter().filter(|b| b.len() <= 4096).cloned().collect();
-    let ncli = ctx.tier.pick(700usize, 25_000usize);
+    let ncli = ctx.tier.pick(1500usize, 30_000usize);
     for i in 0..ncli {
         let formula: Vec<u8> = if i % 2 == 0 {
             corpus[rng.below(corpus.len())].clone()
@@ -605,7 +610,7 @@ pub fn run(ctx: &mut Ctx) -> Result<(), Violation> {
             let mut t = Tape::new(&tape);
             gen_bytes(&mut t, &mut Stats::default()).1
         };
-        let channel = ["arg", "file", "stdin"][rng.below(3)].to_string();
+        let channel = ["arg", "file", "stdin", "arg", "file", "stdin", "missing-file", "directory"][rng.below(8)].to_string();
         let ordering = match rng.below(4) {
             0 => Some(corpus[rng.below(corpus.len())].clone()),
             1 => Some(b"zz a, b; x\ny y 'q' \"c\" [1] & u0".to_vec()),
